@@ -7,8 +7,9 @@
 //! * result = `ok:<hex of the output>` | `err:<ErrorKind>` | `panic:<hex msg>`
 //! * `<prog>` = `-` or the token serialisation of (context, formatter flag, the REAL instruction
 //!   stream the compiler produced) that the Lean model driver executes (see `enc_prog`).
-//! * streams: `site` (documented site matrix; label = `<class>`), `fmt` (same through a custom
-//!   formatter), `prog` (generated programs of the core fragment), `call` (every builtin
+//! * streams: `site` (documented site matrix; label = `<class>`), `fmt` / `fmtv` / `fmtc` (same
+//!   through custom formatters: delegating / every value kind visible / counting its calls; also
+//!   `stmtv`, `stmtc`, `progv`, `progc`), `prog` (generated programs of the core fragment), `call` (every builtin
 //!   filter/test/function with possibly-undefined operands in each argument position; label =
 //!   `<kind>:<name>:<what was substituted where>`), `sweep` (every builtin x small operand pool).
 //!
@@ -53,8 +54,28 @@ fn ctx_big() -> Value {
 }
 
 struct Envs {
+    /// default formatter
     envs: Vec<Environment<'static>>,
-    fmt_envs: Vec<Environment<'static>>,
+    /// custom formatters (Emit goes through Environment::format): [delegating, visible, counting]
+    fmt_envs: [Vec<Environment<'static>>; 3],
+}
+
+thread_local! {
+    /// number of invocations of the counting formatter during the current render
+    static FMT_CALLS: std::cell::Cell<usize> = const { std::cell::Cell::new(0) };
+}
+
+/// 0 = default formatter, 1 = custom formatter delegating to escape_formatter, 2 = custom formatter
+/// that makes every value kind visible (undefined -> U, also the silent one; none -> N),
+/// 3 = delegating formatter with a side effect (counts its invocations; the count is appended
+/// to the observed output as `#n`)
+fn fmt_kind(stream: &str) -> usize {
+    match stream {
+        "fmt" => 1,
+        "fmtv" | "stmtv" | "progv" => 2,
+        "fmtc" | "stmtc" | "progc" => 3,
+        _ => 0,
+    }
 }
 
 /// user filters, one per string-like argument type of value/argtypes.rs
@@ -78,25 +99,47 @@ fn add_arg_filters(e: &mut Environment<'static>) {
 
 fn mk_envs() -> Envs {
     let mut envs = vec![];
-    let mut fmt_envs = vec![];
+    let mut fmt_envs = [vec![], vec![], vec![]];
     for m in MODES {
         let mut e = Environment::new();
         e.set_undefined_behavior(m);
         add_arg_filters(&mut e);
         envs.push(e);
-        let mut e = Environment::new();
-        e.set_undefined_behavior(m);
-        add_arg_filters(&mut e);
-        // a custom formatter (Emit then goes through Environment::format)
-        e.set_formatter(|out, state, value| minijinja::escape_formatter(out, state, value));
-        fmt_envs.push(e);
+        for kind in 1..=3 {
+            let mut e = Environment::new();
+            e.set_undefined_behavior(m);
+            add_arg_filters(&mut e);
+            match kind {
+                1 => e.set_formatter(|out, state, value| minijinja::escape_formatter(out, state, value)),
+                2 => e.set_formatter(|out, state, value| {
+                    if value.is_undefined() {
+                        out.write_str("U").map_err(minijinja::Error::from)
+                    } else if value.is_none() {
+                        out.write_str("N").map_err(minijinja::Error::from)
+                    } else {
+                        minijinja::escape_formatter(out, state, value)
+                    }
+                }),
+                _ => e.set_formatter(|out, state, value| {
+                    FMT_CALLS.with(|c| c.set(c.get() + 1));
+                    minijinja::escape_formatter(out, state, value)
+                }),
+            }
+            fmt_envs[kind - 1].push(e);
+        }
     }
     Envs { envs, fmt_envs }
 }
 
-fn render(env: &Environment, src: &str, ctx: &Value) -> String {
+fn render(env: &Environment, src: &str, ctx: &Value, counting: bool) -> String {
+    FMT_CALLS.with(|c| c.set(0));
     match guarded(|| env.render_str(src, ctx.clone())) {
-        Ok(Ok(s)) => format!("ok:{}", hex(s.as_bytes())),
+        Ok(Ok(mut s)) => {
+            if counting {
+                s.push_str(&format!("#{}", FMT_CALLS.with(|c| c.get())));
+            }
+            format!("ok:{}", hex(s.as_bytes()))
+        }
         Ok(Err(e)) => format!("err:{}", error_kind_name(&e)),
         Err(p) => format!("panic:{}", hex(p.as_bytes())),
     }
@@ -251,9 +294,9 @@ fn enc_instr(strict: &Environment, ins: &Instruction, out: &mut String) {
     }
 }
 
-/// `C @ F <0|1> N <count> <instr>…` (`@` = the context of the preceding `ctx` line) or `-` when
+/// `C @ F <formatter kind 0..3> N <count> <instr>…` (`@` = the context of the preceding `ctx` line) or `-` when
 /// the template does not compile
-fn enc_prog(envs: &Envs, src: &str, ctx: &Value, custom_fmt: bool) -> String {
+fn enc_prog(envs: &Envs, src: &str, ctx: &Value, fmt_kind: usize) -> String {
     let strict = &envs.envs[3];
     let r = guarded(|| {
         let tmpl = match strict.template_from_str(src) {
@@ -267,7 +310,7 @@ fn enc_prog(envs: &Envs, src: &str, ctx: &Value, custom_fmt: bool) -> String {
         // the context is the shared one announced by the `ctx` line
         let _ = ctx;
         let mut out = String::from("C @");
-        write!(out, " F {}", custom_fmt as u8).unwrap();
+        write!(out, " F {}", fmt_kind).unwrap();
         let mut n = 0u32;
         let mut body = String::new();
         while let Some(ins) = compiled.instructions.get(n) {
@@ -293,9 +336,10 @@ fn emit_ctx(w: &mut impl std::io::Write, envs: &Envs) {
 
 fn emit(w: &mut impl std::io::Write, envs: &Envs, stream: &str, id: usize, label: &str, src: &str, ctx: &Value, model: bool) {
     debug_assert!(!src.contains('\t') && !src.contains('\n'));
-    let es = if stream == "fmt" { &envs.fmt_envs } else { &envs.envs };
-    let rs: Vec<String> = es.iter().map(|e| render(e, src, ctx)).collect();
-    let prog = if model { enc_prog(envs, src, ctx, stream == "fmt") } else { "-".into() };
+    let k = fmt_kind(stream);
+    let es = if k == 0 { &envs.envs } else { &envs.fmt_envs[k - 1] };
+    let rs: Vec<String> = es.iter().map(|e| render(e, src, ctx, k == 3)).collect();
+    let prog = if model { enc_prog(envs, src, ctx, k) } else { "-".into() };
     writeln!(w, "{}\t{}\t{}\t{}\t{}\t{}", stream, id, label, src, rs.join("\t"), prog).unwrap();
 }
 
@@ -418,6 +462,19 @@ const SITES: &[(&str, &str, &str)] = &[
     ("never", "[{% set y = u %}{{ y is defined }}]", "[False]"),
     ("never", "[{{ a|attr('b') is defined }}]", "[False]"),
     ("model", "[{{ 1 if b0 }}]", "[]"),
+    ("model", "[{{ (u.name if u is defined) }}]", "[]"),
+    ("model", "[{{ (a.b if a is defined and b0) }}]", "[]"),
+    ("model", "[{{ (a.x if u is defined) }}|{{ a.x if a is defined }}]", "[|1]"),
+    ("model", "[{{ ((1 if b0) if b1) }}]", "[]"),
+    ("model", "[{{ (1 if b0) or n }}|{{ n }}|{{ none }}]", "[None|None|None]"),
+    ("model", "[{{ [(1 if b0), n] }}]", "[[undefined, None]]"),
+    ("model", "[{{ (1 if b0)|default('d') }}]", "[d]"),
+    ("model", "[{{ (1 if b0)|string }}|{{ (1 if b0)|trim }}|{{ ((1 if b0) ~ (1 if b0)) }}]", "[||]"),
+    ("model", "[{% for x in l1 %}{{ x if b0 }}{{ x if x == 2 }}{% endfor %}]", "[2]"),
+    ("model", "[{% with y = (1 if b0) %}{{ y }}{% endwith %}]", "[]"),
+    ("model", "[{% set y %}{{ 1 if b0 }}{% endset %}{{ y }}]", "[]"),
+    ("model", "[{{ [1 if b0]|first }}]", "[]"),
+    ("model", "[{{ {'k': (1 if b0)}.k }}]", "[]"),
     ("model", "[{% for x in (1 if b0) %}x{% endfor %}]", "[]"),
     ("model", "[{% if (1 if b0) %}1{% endif %}]", "[]"),
     ("model", "[{{ not (1 if b0) }}]", "[True]"),
@@ -1081,7 +1138,7 @@ fn main() {
         "one" => {
             let stream = args.get(2).map(|s| s.as_str()).unwrap_or("prog");
             let src = args.get(3).cloned().unwrap_or_default();
-            let small = matches!(stream, "site" | "fmt" | "prog");
+            let small = matches!(stream, "site" | "fmt" | "fmtv" | "fmtc" | "prog" | "progv" | "progc");
             let ctx = if small { ctx_small() } else { ctx_big() };
             emit_ctx(&mut w, &envs);
             emit(&mut w, &envs, stream, 0, "replay", &src, &ctx, small);
@@ -1100,6 +1157,14 @@ fn main() {
                 emit(&mut w, &envs, "fmt", id, &format!("{}:{}", class, hx(expect)), src, &small, true);
                 id += 1;
             }
+            // the visible and the counting formatter: the outputs differ from the default ones, so
+            // only the error pattern of the class is judged (label `class:*`), plus monotonicity
+            for stream in ["fmtv", "fmtc"] {
+                for (class, src, _) in SITES {
+                    emit(&mut w, &envs, stream, id, &format!("{}:*", class), src, &small, true);
+                    id += 1;
+                }
+            }
             let mut calls: Vec<(String, String)> = vec![];
             gen_calls(&tier, &mut |label, src| calls.push((label, src)));
             for (label, src) in &calls {
@@ -1112,9 +1177,11 @@ fn main() {
                 emit(&mut w, &envs, "sweep", id, label, src, &big, false);
                 id += 1;
             }
-            for src in STMTS {
-                emit(&mut w, &envs, "stmt", id, "stmt", src, &big, false);
-                id += 1;
+            for stream in ["stmt", "stmtv", "stmtc"] {
+                for src in STMTS {
+                    emit(&mut w, &envs, stream, id, "stmt", src, &big, false);
+                    id += 1;
+                }
             }
             let n_model = if tier == "thorough" { 100000 } else { 2000 };
             let n_rich = if tier == "thorough" { 100000 } else { 2000 };
@@ -1124,8 +1191,18 @@ fn main() {
                 g.missing_pct = [8, 15, 30, 50][i % 4];
                 g.wild_pct = [3, 10, 25][(i / 4) % 3];
                 let src = g.program();
-                emit(&mut w, &envs, "prog", id, if g.rich { "rich" } else { "core" }, &src, &small, true);
+                let label = if g.rich { "rich" } else { "core" };
+                emit(&mut w, &envs, "prog", id, label, &src, &small, true);
                 id += 1;
+                // a fraction of the programs also through the custom formatters
+                if i % 3 == 0 {
+                    emit(&mut w, &envs, "progv", id, label, &src, &small, true);
+                    id += 1;
+                }
+                if i % 6 == 1 {
+                    emit(&mut w, &envs, "progc", id, label, &src, &small, true);
+                    id += 1;
+                }
             }
         }
         _ => {
